@@ -498,13 +498,23 @@ impl TimeSource for FixedTime {
     }
 }
 
+/// `compression_enabled` of the next configuration this harness builds: alternates (deterministic:
+/// the harness is single-threaded).  The `compression` feature is not part of this build, so both
+/// values must behave alike (Compression::None either way) — a flag that changed anything a
+/// property observes shows up as a disagreement on every second case.
+pub fn compress_flag() -> bool {
+    use std::sync::atomic::{AtomicU64, Ordering};
+    static N: AtomicU64 = AtomicU64::new(0);
+    N.fetch_add(1, Ordering::Relaxed) % 2 == 1
+}
+
 pub fn wb_config() -> WriteBufferConfig {
     WriteBufferConfig {
         flush_interval: std::time::Duration::from_secs(3600),
         max_size_bytes: 1 << 30,
         max_deltas: 1 << 30,
         backpressure_threshold_bytes: 1 << 40,
-        compression_enabled: false,
+        compression_enabled: compress_flag(),
     }
 }
 
@@ -539,7 +549,7 @@ pub fn compactor_ms(store: &FaultStore, c: &CCfg, max_segments: u64) -> Compacto
         min_segments_to_compact: c.min as usize,
         max_segments_per_compaction: c.maxper as usize,
         tombstone_ttl: c.ttl,
-        compression_enabled: false,
+        compression_enabled: compress_flag(),
     };
     Compactor::with_time_source(
         Arc::new(store.clone()),
